@@ -137,6 +137,9 @@ fn main() {
                 }
             }
         }
+        Some("purechild") => {
+            std::process::exit(pure::child(&args[2]));
+        }
         Some("list") => {
             for s in scen::all() {
                 println!("{:36} {}", s.name, s.about);
